@@ -461,6 +461,7 @@ func ruleNS3(c *Ctx) {
 	ft := p.Flags()
 	allowDup := ft.Single["AllowDuplicateNames"]
 	msig, usig := marshalerSig(p), unmarshalerSig(p)
+	ns3InvalidateAllLevels(c)
 	for _, nm := range []string{"json.marshalEncode", "json.unmarshalDecode"} {
 		f := p.Func(nm)
 		if f == nil || f.Body() == nil {
@@ -670,4 +671,94 @@ func ruleMAPCACHE1(c *Ctx) {
 		return true
 	})
 	c.Oblige("removeLast-updates-map", rm.Pos(), delPos != token.NoPos && truncPos != token.NoPos && delPos < truncPos, "removeLast does not delete the last name from mapNames before truncating the name list")
+}
+
+// ns3InvalidateAllLevels: InvalidateDisabledNamespaces must reach every level of
+// the stack (a failed nested marshal leaves disabled namespaces at outer levels
+// too): the invalidation sits in a loop over [0, Depth()) through index(i), or
+// in a loop over m.Stack together with a direct treatment of m.Last.
+func ns3InvalidateAllLevels(c *Ctx) {
+	p := c.P
+	f := p.Func("jsontext.(*stateMachine).InvalidateDisabledNamespaces")
+	if f == nil || f.Body() == nil {
+		c.Undecide("jsontext.(*stateMachine).InvalidateDisabledNamespaces", "function missing")
+		return
+	}
+	info := f.Info()
+	stackF := p.Field("jsontext", "stateMachine", "Stack")
+	lastF := p.Field("jsontext", "stateMachine", "Last")
+	coversStack, coversLast := false, false
+	for _, call := range findAll[*ast.CallExpr](f.Body()) {
+		if _, ok := MethodCall(info, call, "jsontext", "stateEntry", "invalidateNamespace"); !ok {
+			continue
+		}
+		sel, _ := ast.Unparen(call.Fun).(*ast.SelectorExpr)
+		// enclosing loops
+		var n ast.Node = call
+		inDepthLoop, inStackLoop := false, false
+		for n != nil && n != ast.Node(f.Body()) {
+			n = p.Parent(f.File, n)
+			switch l := n.(type) {
+			case *ast.RangeStmt:
+				x := ast.Unparen(l.X)
+				if cl, ok := x.(*ast.CallExpr); ok {
+					if _, ok := MethodCall(info, cl, "jsontext", "stateMachine", "Depth"); ok {
+						inDepthLoop = true
+					}
+				}
+				if SelField(info, x) == stackF {
+					inStackLoop = true
+				}
+			case *ast.ForStmt:
+				if l.Cond != nil {
+					for _, cl := range findAll[*ast.CallExpr](l.Cond) {
+						if _, ok := MethodCall(info, cl, "jsontext", "stateMachine", "Depth"); ok {
+							inDepthLoop = true
+						}
+						if IsBuiltin(info, cl, "len") && len(cl.Args) == 1 && SelField(info, cl.Args[0]) == stackF {
+							inStackLoop = true
+						}
+					}
+				}
+			}
+		}
+		// what the receiver denotes: a local defined from m.index(i), &m.Stack[i], &m.Last, or those directly
+		usesIndex, usesStack, usesLast := false, false, false
+		var exprs []ast.Expr
+		if sel != nil {
+			exprs = append(exprs, sel.X)
+			if v, _ := IdentObj(info, sel.X).(*types.Var); v != nil && !v.IsField() {
+				exprs = append(exprs, defsOf(info, f.Body(), v)...)
+			}
+		}
+		for _, e := range exprs {
+			ast.Inspect(e, func(nd ast.Node) bool {
+				switch x := nd.(type) {
+				case *ast.CallExpr:
+					if _, ok := MethodCall(info, x, "jsontext", "stateMachine", "index"); ok {
+						usesIndex = true
+					}
+				case *ast.SelectorExpr:
+					if SelField(info, x) == stackF {
+						usesStack = true
+					}
+					if SelField(info, x) == lastF {
+						usesLast = true
+					}
+				}
+				return true
+			})
+		}
+		if inDepthLoop && usesIndex {
+			coversStack, coversLast = true, true
+		}
+		if (inStackLoop || inDepthLoop) && usesStack {
+			coversStack = true
+		}
+		if usesLast {
+			coversLast = true
+		}
+	}
+	c.Oblige("invalidate-all-levels", f.Pos(), coversStack && coversLast,
+		"InvalidateDisabledNamespaces does not reach every level (all of Stack and Last): a disabled namespace at an outer level would stay usable after a failed nested call")
 }
